@@ -158,62 +158,22 @@ theorem listEnum_rel (l : List TSpec) : listEnum (l.filter (rel .enum)) = listEn
   | nil => rfl
   | cons t r ih =>
     cases hu : t.under with
-    | none =>
-      by_cases hh : harmless .enum t = true
-      · simp [List.filter_cons, rel, hh, listEnum, hu, ih]
-      · simp [List.filter_cons, rel, hh, listEnum, hu, ih]
+    | none => simp [List.filter_cons, rel, harmless, listEnum, hu, ih]
     | some k =>
-      have hh : harmless .enum t = false := by simp [harmless, hu]
-      simp [List.filter_cons, rel, hh, listEnum, hu, ih]
+      cases hk : k.listed with
+      | true => simp [List.filter_cons, rel, harmless, listEnum, hu, hk, ih]
+      | false => simp [List.filter_cons, rel, harmless, listEnum, hu, hk, ih]
 
 theorem enumAliasWarn_rel (l : List TSpec) : enumAliasWarn (l.filter (rel .enum)) = enumAliasWarn l := by
   induction l with
   | nil => rfl
   | cons t r ih =>
     cases hu : t.under with
-    | none =>
-      by_cases hh : harmless .enum t = true
-      · simp [List.filter_cons, rel, hh, enumAliasWarn, hu, ih]
-      · simp [List.filter_cons, rel, hh, enumAliasWarn, hu, ih]
+    | none => simp [List.filter_cons, rel, harmless, enumAliasWarn, hu, ih]
     | some k =>
-      have hh : harmless .enum t = false := by simp [harmless, hu]
-      simp [List.filter_cons, rel, hh, enumAliasWarn, hu, ih]
-
-theorem anyAlias_rel (l : List TSpec) : (l.filter (rel .enum)).any (·.alias) = l.any (·.alias) := by
-  induction l with
-  | nil => rfl
-  | cons t r ih =>
-    by_cases hh : harmless .enum t = true
-    · have : t.alias = false := by
-        simp only [harmless, Bool.and_eq_true, Bool.not_eq_true'] at hh; exact hh.1.2
-      simp [List.filter_cons, rel, hh, this, ih]
-    · simp [List.filter_cons, rel, hh, ih]
-
-theorem anyNonInt_rel (l : List TSpec) : (l.filter (rel .enum)).any nonIntUnder = l.any nonIntUnder := by
-  induction l with
-  | nil => rfl
-  | cons t r ih =>
-    by_cases hh : harmless .enum t = true
-    · have : nonIntUnder t = false := by
-        simp only [harmless, Bool.and_eq_true, Option.isNone_iff_eq_none] at hh
-        simp [nonIntUnder, hh.1.1]
-      simp [List.filter_cons, rel, hh, this, ih]
-    · simp [List.filter_cons, rel, hh, ih]
-
-/-- `ts.isEmpty && predeclNonInt n` for the TypeSpecs named `n` -/
-theorem emptyPredecl_rel (n : String) (l : List TSpec) (hn : ∀ t ∈ l, t.name = n) :
-    ((l.filter (rel .enum)).isEmpty && predeclNonInt n) = (l.isEmpty && predeclNonInt n) := by
-  cases hp : predeclNonInt n with
-  | false => simp
-  | true =>
-    simp only [Bool.and_true]
-    have : l.filter (rel .enum) = l := by
-      rw [List.filter_eq_self]
-      intro t ht
-      simp only [rel, harmless, Bool.not_eq_true', Bool.and_eq_false_iff]
-      right
-      simp [hn t ht, hp]
-    rw [this]
+      cases hk : k.listed with
+      | true => simp [List.filter_cons, rel, harmless, enumAliasWarn, hu, hk, ih]
+      | false => simp [List.filter_cons, rel, harmless, enumAliasWarn, hu, hk, ih]
 
 theorem makeData_stripLoc (cmd : Cmd) (pkg : Pkg) (h : ∀ f ∈ pkg, localsHarmless cmd f.decls = true) (sp : Bool) (n : String) :
     makeData cmd (stripLoc pkg) sp n = makeData cmd pkg sp n := by
@@ -232,12 +192,7 @@ theorem makeData_stripLoc (cmd : Cmd) (pkg : Pkg) (h : ∀ f ∈ pkg, localsHarm
     unfold makeData
     simp only
     rw [← findStruct_rel (namedSpecs (stripLoc pkg) n), ← findStruct_rel (namedSpecs pkg n), hn]
-  | enum =>
-    unfold makeData
-    simp only [constsOf_stripLoc]
-    rw [← anyAlias_rel (namedSpecs (stripLoc pkg) n), ← anyAlias_rel (namedSpecs pkg n),
-      ← anyNonInt_rel (namedSpecs (stripLoc pkg) n), ← anyNonInt_rel (namedSpecs pkg n),
-      ← emptyPredecl_rel n (namedSpecs (stripLoc pkg) n) (hnm _), ← emptyPredecl_rel n (namedSpecs pkg n) (hnm _), hn]
+  | enum => unfold makeData namedTop; simp only [allTop_stripLoc, constsOf_stripLoc]
 
 theorem keep_stripLoc (cmd : Cmd) (pkg : Pkg) (h : ∀ f ∈ pkg, localsHarmless cmd f.decls = true) (sp : Bool) (l : List String) :
     keep cmd (stripLoc pkg) sp l = keep cmd pkg sp l := by
